@@ -8,15 +8,6 @@ from ..model import sem, gen, flat, render
 KINDS = ["randomize", "randomize_with", "vsc.randomize", "vsc.randomize_with"]
 
 
-@findings.predicate("c02_statement_without_field")
-def pred_no_field_stmt(case):
-    """some top-level statement of a class block or of the inline block references no field at all (literals
-    only): the library attaches statements to rand sets through the fields they mention and drops these"""
-    cls = flat.cls_of(case["prog"])
-    stmts = [s for b in cls["blocks"] for s in b["stmts"]] + list(case.get("inline") or [])
-    return any(not gen.stmt_refs_field(s) for s in stmts)
-
-
 # ------------------------------------------------------------------------------------------------
 # generation
 @hyp.composite
@@ -40,8 +31,8 @@ def enum_cases(d, max_bits=10, nfields=4, nblocks=2, p_list=30):
     g = gen.G(d, fs, en)
     blocks = []
     for b in range(d.randint(1, nblocks)):
-        blocks.append({"name": "c%d" % b, "stmts": [g.field_stmt(2) for _ in range(d.randint(1, 3))]})
-    inline = [g.field_stmt(1) for _ in range(d.randint(1, 2))] if d.chance(35) else None
+        blocks.append({"name": "c%d" % b, "stmts": [g.any_stmt(2) for _ in range(d.randint(1, 3))]})
+    inline = [g.any_stmt(1) for _ in range(d.randint(1, 2))] if d.chance(35) else None
     calls = []
     for _ in range(d.randint(1, 3)):
         k = d.choice(KINDS)
